@@ -95,7 +95,7 @@ theorem prop_aux_congr {n : Nat} {r r' : Raft} (haux : AuxInv n r) (h1 : r'.stat
     (h5 : r'.msgsAfterAppend = r.msgsAfterAppend) (h6 : ∀ x ∈ r'.msgs, x ∈ r.msgs ∨ x.typ = .prop) :
     AuxInv n r' ∧ AuxFrame r r' := by
   have hfr : AuxFrame r r' :=
-    ⟨Nat.le_of_eq h2.symm, fun _ hl => ⟨h1.trans hl, by rw [h3]; exact Nat.le_refl _⟩⟩
+    ⟨Nat.le_of_eq h2.symm, fun _ hl => ⟨h1.trans hl, by rw [h3]; exact Nat.le_refl _⟩, fun _ hf => h1.trans hf⟩
   refine ⟨⟨?_, ?_, ?_⟩, hfr⟩
   · rw [h1, h4, h3]; exact haux.matchLe
   · rw [h5]; exact fun m hm => (haux.self m hm).frame hfr
@@ -111,7 +111,8 @@ theorem prop_aux_accepted {val : Val} {voters : List Id} {n : Nat} {nd : Spec.No
     (hs : r.state = .leader) (hp : PropPost val r m ents r') (hf : PropFrame r r') (hns : PropNS r r') :
     AuxInv n r' ∧ AuxFrame r r' := by
   have hfr : AuxFrame r r' :=
-    ⟨Nat.le_of_eq hp.term.symm, fun _ _ => ⟨hp.state, by rw [hp.lastIndex]; exact Nat.le_add_right _ _⟩⟩
+    ⟨Nat.le_of_eq hp.term.symm, fun _ _ => ⟨hp.state, by rw [hp.lastIndex]; exact Nat.le_add_right _ _⟩,
+      fun _ hf => by rw [hs] at hf; cases hf⟩
   refine ⟨⟨?_, ?_, ?_⟩, hfr⟩
   · intro _ pr' hg
     obtain ⟨pr, g1, g2, _⟩ := hf.prog.back hg
@@ -124,7 +125,7 @@ theorem prop_aux_accepted {val : Val} {voters : List Id} {n : Nat} {nd : Spec.No
     · simp only [List.mem_singleton] at hx
       subst hx
       intro _
-      refine ⟨Or.inr rfl, rfl, hinv.st.id, Nat.le_of_eq hp.term.symm, fun _ _ => ⟨hp.state, ?_⟩⟩
+      refine ⟨Or.inr rfl, rfl, hinv.st.id, Nat.le_of_eq hp.term.symm, fun _ _ => Or.inr ⟨hp.state, ?_⟩⟩
       show (absLog val r).length + ents.length ≤ r'.log.lastIndex
       rw [hp.lastIndex]
       unfold absLog
